@@ -250,6 +250,10 @@ pub mod prelude {
             r matches Some(b) ==> exists|i: int| #[trigger] fm_hit(f, old(it).remaining(), i, b),
             r is None ==> fm_none(f, old(it).remaining());
 
+    pub assume_specification<T, U, F: FnOnce(T) -> U> [Option::<T>::map_or] (o: Option<T>, default: U, f: F) -> (r: U)
+        requires o matches Some(x) ==> call_requires(f, (x,)),
+        ensures match o { Some(x) => call_ensures(f, (x,), r), None => r == default };
+
     pub assume_specification<T: Copy> [Option::<&T>::copied] (o: Option<&T>) -> (r: Option<T>)
         ensures r == (match o { Some(x) => Some(*x), None => None });
 
@@ -3526,19 +3530,34 @@ proof { if old(self).comp is Some { assert(pushes_candidate(*old(self), *self, s
 proof { if old(self).comp is Some { assert(pushes_candidate(*old(self), *self, self.comp->Some_0.comps@.last())); } }
 //@@ end
 
+//@@ fn src/args.rs | mod inner | impl State | fn check_no_pos_ahead
+//@@ unit args.State.check_no_pos_ahead tags=C14,C20 cfg=autocomplete
+//@@ ret r
+//@@ spec
+        ensures r == (self.comp is Some && self.comp->Some_0.no_pos_ahead), // #false_outside_completion_mode
+//@@ insert after 1 `|c`
+: &crate::complete_gen::Complete
+//@@ insert after 1 `|c|`
+-> (b: bool) ensures b == c.no_pos_ahead {
+//@@ insert after 1 `|c| c.no_pos_ahead`
+}
+//@@ end
+
+//@@ fn src/args.rs | mod inner | impl State | fn set_no_pos_ahead
+//@@ unit args.State.set_no_pos_ahead tags=C14,C20 cfg=autocomplete
+//@@ spec
+        ensures
+            final(self).same_but_comp(*old(self)), old(self).comp is None ==> *final(self) == *old(self), // #inert_outside_completion_mode
+            old(self).comp matches Some(k) ==> final(self).comp is Some && final(self).comp->Some_0.comps@ == k.comps@
+                && final(self).comp->Some_0.output_rev == k.output_rev && final(self).comp->Some_0.no_pos_ahead, // #only_the_marker_is_set
+//@@ end
+
 // assumed: the completion hooks of src/complete_gen.rs touch nothing but `comp`, and nothing at all outside completion mode
 #[cfg(feature = "autocomplete")]
 impl State {
     #[verifier::external_body]
     pub fn push_with_group(&mut self, group: &Option<String>, comps: &mut Vec<crate::complete_gen::Comp>)
         ensures final(self).same_but_comp(*old(self)), old(self).comp is None ==> *final(self) == *old(self), old(self).comp is Some ==> final(self).comp is Some,
-    { unimplemented!() }
-    #[verifier::external_body]
-    pub fn set_no_pos_ahead(&mut self)
-        ensures final(self).same_but_comp(*old(self)), old(self).comp is None ==> *final(self) == *old(self), old(self).comp is Some ==> final(self).comp is Some,
-    { unimplemented!() }
-    #[verifier::external_body]
-    pub fn check_no_pos_ahead(&self) -> (r: bool)
     { unimplemented!() }
     #[verifier::external_body]
     pub fn check_complete(&self) -> (r: Option<String>)
